@@ -1,7 +1,7 @@
 #!/bin/bash
-# tools/seed_verify.sh <ID> <k>  - confirm a sub-agent mutation (/tmp/mut2/<ID>/mut<k>.diff + demo<k>.py) and run the property's check on it.
+# tools/seed_verify.sh <ID> <k>  - confirm a sub-agent mutation ($SRCROOT/<ID>/mut<k>.diff, default /tmp/mut2 + demo<k>.py) and run the property's check on it.
 # Confirmed mutations are stored under /verif/seeded/<ID>-<k>/ (patch.diff, demo.py, meta.json). Scratch worktree is removed.
-ID=$1; K=$2; SRC=/tmp/mut2/$ID
+ID=$1; K=$2; SRC=${SRCROOT:-/tmp/mut2}/$ID
 WT=/tmp/sv-$ID-$K
 [ -f $SRC/mut$K.diff ] || { echo "$ID-$K: no patch"; exit 2; }
 git -C /repo worktree add -q $WT HEAD || exit 3
@@ -18,10 +18,10 @@ echo "$ID-$K confirmed=$CONF apply=$APPLY demo_clean=$RC_CLEAN demo_mut=$RC_MUT 
 if [ $CONF = yes ]; then
   D=/verif/seeded/$ID-${SEEDTAG:-}$K; mkdir -p $D
   cp $SRC/mut$K.diff $D/patch.diff; cp $SRC/demo$K.py $D/demo.py
-  /venv/bin/python - "$ID" "$K" "$RC_CLEAN" "$RC_MUT" "$SUITE" "$CHECK" "${SEEDTAG:-}" <<'PY'
+  /venv/bin/python - "$ID" "$K" "$RC_CLEAN" "$RC_MUT" "$SUITE" "$CHECK" "${SEEDTAG:-}" "$SRC" <<'PY'
 import json,sys,re
-ID,K,rc,rm,suite,check,tag=sys.argv[1:8]
-md=open(f"/tmp/mut2/{ID}/MUTATIONS.md").read()
+ID,K,rc,rm,suite,check,tag,src=sys.argv[1:9]
+md=open(f"{src}/MUTATIONS.md").read()
 m=re.search(rf"{ID} rc=(\d+)",check)
 json.dump({"property":ID,"mutation":int(K),"source":"independent sub-agent given only the property text and a scratch worktree",
  "description_by_author":md[:6000],
